@@ -216,8 +216,7 @@ Proof.
            ++ rewrite KK. intros R C HR HC. rewrite D10.
               apply (shifted_scroll_up (cells s3) (cells s0) (fun r c => if (r =? vr) && (c =? vc) then ch else g r c)
                        H W T B (Z.max 0 (vr - B))); auto.
-              ** clear - G3 G4 G5. lia.
-              ** intros C'. apply B3. clear - HvB. lia.
+              intros C'. apply B3. clear - HvB. lia.
            ++ intros r c Hr. apply B3. clear - Hr. lia.
            ++ intros r Hr _. assert (r = B) by (clear - Hr D7; lia). subst r.
               rewrite Hfl by (clear - HvB; lia). exact WS5.
